@@ -412,6 +412,19 @@ class Point:
                 out[mm] = cf
         return {m: c for m, c in out.items() if c != (0, 0)}
 
+    def canon_mono(self, m):
+        """monomial key for exp bases: opaque log(x) factors are keyed by the VALUE of x (so equal arguments share a logarithm)"""
+        out = []
+        for k, e in m:
+            if k[0] == 'n':
+                nd = node_by_uid(k[1])
+                if nd.op == 'fn' and nd.val == 'log':
+                    out.append((('logval', self.ev(nd.args[0])), e)); continue
+                if nd.op == 'fn' and nd.val not in ('exp', 'cexp', 'sin', 'cos', 'tan') or nd.op in ('div', 'powi', 'cmp'):
+                    out.append((('val', self.ev(nd)), e)); continue
+            out.append((k, e))
+        return tuple(sorted(out, key=repr))
+
     def ev_exp(self, argnode, times_i=False):
         """exp(arg) (or exp(I*arg) when times_i) in GF(p^2)."""
         terms = self.reduce_arg(argnode)
@@ -423,12 +436,13 @@ class Point:
                 if cr != 0 or ci != 0:
                     # exp of a non-zero pure number: transcendental constant, keep as named base
                     pass
+            mk = self.canon_mono(m)
             for part, imag in ((cr, False), (ci, True)):
                 if part == 0: continue
                 k = part * DEN
                 if k.denominator != 1:
                     raise AnalysisError(f'exp coefficient {part} not a multiple of 1/{DEN}')
-                r = c_mul(r, c_pow(self.exp_base(m, imag), int(k)))
+                r = c_mul(r, c_pow(self.exp_base(mk, imag), int(k)))
         return r
 
     def ev(self, n):
@@ -548,7 +562,8 @@ class Point:
             # opaque: keyed by the VALUE of the argument so that equal arguments give equal logs
             return self.opaque(('log', a), real=(a[1] == 0))
         # uninterpreted function: opaque value keyed by name and argument values
-        return self.opaque((name,) + tuple(memo[t.uid] for t in x.args), real=False)
+        vals = tuple(memo[t.uid] for t in x.args)
+        return self.opaque((name,) + vals, real=all(v[1] == 0 for v in vals))
 
     def opaque(self, key, real=True):
         v = self.atomv.get(key)
